@@ -1,8 +1,10 @@
 """C04 — deque.Deque equals an ideal double-ended sequence for every history."""
 import vlib
 from deque_common import DequeSpec
+from scale_common import ScaleSpec
 
-SPECS = {"deque": (DequeSpec(iterators=False), "harness", "runner")}
+SPECS = {"deque": (DequeSpec(iterators=False), "harness", "runner"), "deque-iter": (DequeSpec(iterators=True), "harness", "runner"),
+         "scale": (ScaleSpec(['deque-gc']), "harness", "runner")}
 
 PROP_FILES = ["C04"]
 
@@ -18,8 +20,16 @@ def run(ctx):
     part = vlib.seq_differential(ctx, spec, exe, proofs_ok)
     if "_tri" in part.get("distribution", {}):
         del part["distribution"]["_tri"]
+    # Iterate is one of the operations of the property: several iterator handles alive at the same time, stepped in any
+    # order (an exhausted handle kept while a new one is created, ...), each must yield the ideal sequence's contents
+    part2 = vlib.seq_differential(ctx, DequeSpec(iterators=True), exe, proofs_ok, tag="deque-iter", scale=0.5)
+    part2.get("distribution", {}).pop("_tri", None)
+    # "elements that have been popped are not retained": a real garbage collection decides (finalizers)
+    vlib.seq_differential(ctx, ScaleSpec(['deque-gc']), exe, proofs_ok, tag="scale")
     vlib.merge_parts(ctx, "cases = operation sequences from the zero Deque drawn from 5 weighted profiles "
                      "(balanced, grow, drain, wrap, realloc) with boundary index arguments; distinct = hash of the op list; "
-                     "non-trivial = >= 5 ops and at least one value-returning observation")
+                     "non-trivial = >= 5 ops and at least one value-returning observation; part deque-iter: the same with several live "
+                     "iterators stepped in any order; part scale: pointer elements with finalizers, after the history everything "
+                     "popped or overwritten must have been garbage collected")
     vlib.handle_broken_proof(ctx)
     ctx.finish(assumptions=["Go int overflow not modelled", "slices/append/copy as documented"])
